@@ -26,6 +26,16 @@ def opsC09 : List String → Option String
   | ["parseseq", s, n] => some (natList (SeqSet.parseSeq (unhex s) n.toNat!))
   | "parseuid" :: s :: uids => some (natList (SeqSet.parseUid (unhex s) (natArgs uids)))
   | ["fetchsetok", s] => some (boolS (SeqSet.fetchSetOk (unhex s)))
+  | "fetchseq" :: s :: uids =>
+    -- FETCH <set> (UID): BAD on a syntactically invalid set, else one response per addressed rank, labelled rank:uid
+    let us := natArgs uids
+    if !SeqSet.fetchSetOk (unhex s) then some "bad"
+    else some (" ".intercalate ("ok" :: (SeqSet.parseSeq (unhex s) us.length).filterMap (fun r => (us[r - 1]?).map (fun u => s!"{r}:{u}"))))
+  | "uidfetch" :: s :: uids =>
+    some (" ".intercalate ("ok" :: (SeqSet.parseUid (unhex s) (natArgs uids)).map toString))
+  | ["storeseq", s, n] =>
+    let rs := SeqSet.parseSeq (unhex s) n.toNat!
+    if rs.isEmpty then some "bad" else some (" ".intercalate ("ok" :: rs.map toString))
   | _ => none
 
 def modeOfS : String → Option Flags.Mode
@@ -105,6 +115,9 @@ def opsMail (s : Store) : List String → Option (Store × String)
   | ["m.rename", a, b, now] => let (s', r) := s.rename (unhex a) (unhex b) now.toNat!; some (s', resS r)
   | ["m.sub", a] => let (s', r) := s.subscribe (unhex a); some (s', resS r)
   | ["m.unsub", a] => let (s', r) := s.unsubscribe (unhex a); some (s', resS r)
+  | ["m.readonly", cmd, box] =>
+    -- a mailbox opened with EXAMINE: STORE / EXPUNGE and their UID forms are refused, CLOSE removes nothing; no change
+    if !s.has (unhex box) then some (s, "no") else some (s, if cmd = "close" then "ok" else "no")
   | ["m.dump"] => some (s, dumpStore s)
   | ["m.lsub"] => some (s, hexList s.shownSubs)
   | ["m.log"] => some (s, " ".intercalate (s.log.reverse.map (fun e => s!"{e.inc}:{hexOut e.name}:{e.uid}:{e.msg}")))
